@@ -61,6 +61,33 @@ func gallina(r *http.Request, tlsOn bool) string {
 	return fmt.Sprintf("(RQ %s %s %s %s %s)", emit.Bool(tlsOn), emit.Str(r.Method), emit.Str(r.Host), emit.Str(r.URL.EscapedPath()), emit.Str(r.URL.RawQuery))
 }
 
+// originAnswer: what the origin answers for an identified target. Targets below /twins/ are files of equal size written
+// in the same second: the same strong ETag (derived from mtime and size, as nginx and Apache do) and the same length,
+// different content.
+func originAnswer(c string) e2elib.Answer {
+	if strings.Contains(c, "/twins/") {
+		b := []byte("T=" + c)
+		for len(b) < 96 {
+			b = append(b, '.')
+		}
+		return e2elib.NewAnswer(200, b, "Cache-Control: max-age=3600", `ETag: "66f7a1c0-60"`)
+	}
+	return e2elib.NewAnswer(200, []byte("T="+c), "Cache-Control: max-age=3600")
+}
+
+// expectedBody: the body the origin sends for a request target (same identification as the handler)
+func expectedBody(target string) string {
+	t, q, hasQ := strings.Cut(target, "?")
+	c := path.Clean(t)
+	if c != "/" && (strings.HasSuffix(t, "/") || strings.HasSuffix(t, "/.") || strings.HasSuffix(t, "/..")) {
+		c += "/"
+	}
+	if hasQ {
+		c += "?" + q
+	}
+	return string(originAnswer(c).Body)
+}
+
 func main() {
 	flag.Parse()
 	e2elib.Quiet()
@@ -90,7 +117,7 @@ func main() {
 				if hasQ {
 					c += "?" + q
 				}
-				return e2elib.NewAnswer(200, []byte("T="+c), "Cache-Control: max-age=3600")
+				return originAnswer(c)
 			})
 			get := func(target, host string) (body, xcache string, ok bool) {
 				var resp *e2elib.Response
@@ -136,6 +163,9 @@ func main() {
 				if r.Chance(30) {
 					ta = base
 				}
+				if r.Chance(8) { // two different files with the same validator and length
+					ta, tb = prefix+"/twins/alpha.sig", prefix+"/twins/bravo.sig"
+				}
 				ha, hb := hosts[0], hosts[0]
 				if r.Chance(25) {
 					hb = emit.Pick(r, hosts)
@@ -165,6 +195,13 @@ func main() {
 				}
 				contacted := env.Origin.Count() > before
 				shared := !contacted && bodyB == bodyA
+				// whenever the origin was asked, the client gets what the origin sends for THAT target
+				// (judged for the plainly spelled twin targets only: other spellings are re-encoded on their way upstream)
+				if strings.Contains(ta, "/twins/") && (bodyA != expectedBody(ta) || (contacted && bodyB != expectedBody(tb))) {
+					meta.DirectFail(map[string]any{"kind": "answered-with-another-resource", "a": ta, "host_a": ha, "b": tb, "host_b": hb,
+						"a_body": bodyA, "a_expected": expectedBody(ta), "b_body": bodyB, "b_expected": expectedBody(tb), "origin_contacted_for_b": contacted,
+						"what": "the origin was asked for the target, yet the client received the content of another resource"})
+				}
 				// what the origin answers when asked for B on its own (fresh prefix so nothing is stored)
 				distinct := false
 				if shared {
